@@ -7,7 +7,7 @@ catch-alls.  Arithmetic conversions are *not* casts: only `dispatch_with_convers
 import ChaiVerif.Model.Dispatch
 namespace ChaiVerif
 
-inductive Ty | int | double | bool | string | base | derived | other | long | float | undef
+inductive Ty | int | double | bool | string | base | derived | other | long | float | undef | second | both
 deriving DecidableEq, Repr, Inhabited
 
 inductive PForm | val | cref | ref | ptr | cptr | sp | spc
@@ -30,8 +30,8 @@ def Ty.arith : Ty → Bool
   | .int | .double | .long | .float => true
   | _ => false
 
-/-- registered conversions: base_class<Base, Derived>() -/
-def convertsTo (frm to : Ty) : Bool := frm == .derived && to == .base
+/-- registered conversions: base_class<Base, Derived>(), base_class<Second, Both>() (Second is Both's SECOND base: the pointer must be adjusted) -/
+def convertsTo (frm to : Ty) : Bool := (frm == .derived && to == .base) || (frm == .both && to == .second)
 
 /-- **Specification of a cast** (`boxed_cast<Param>(value)` succeeds exactly when …). -/
 def castOkSpec : CP → CA → Bool
@@ -87,6 +87,7 @@ def paramOfId : Nat → Option CP
   | 16 => some (.typed .base .cptr) | 17 => some (.typed .base .sp) | 18 => some (.typed .base .spc) | 19 => some (.typed .derived .cref)
   | 20 => some (.typed .derived .ref) | 21 => some (.typed .other .cref) | 22 => some .boxedValue | 23 => some .boxedNumber
   | 24 => some (.typed .long .val) | 25 => some (.typed .float .val)
+  | 26 => some (.typed .second .cref) | 27 => some (.typed .second .ref) | 28 => some (.typed .second .ptr) | 29 => some (.typed .second .sp)
   | _ => none
 
 def pairOfId : Nat → Option (Nat × Nat)
